@@ -53,7 +53,11 @@ func VerifC20Invalid() {
 	method := verifMethods[rt.Choose("method", len(verifMethods))]
 	name := []string{"", "name=db", "name=nope"}[rt.Choose("name", 3)]
 	extra := []string{"", "id=1", "id=x", "nodeID=zz", "nodeID=0000000000000009", "lockID=1", "lockID=0"}[rt.Choose("param", 7)]
-	nodeHdr := []string{"", litefs.FormatNodeID(store.ID()), "00000000000000AA"}[rt.Choose("node.header", 3)]
+	// the caller's node id: absent, another node's, or this node's own id in any spelling ParseNodeID accepts
+	hdrIdx := rt.Choose("node.header", 6)
+	nodeHdr := []string{"", "00000000000000AA", litefs.FormatNodeID(store.ID()), "0000000000000b0b", "00000000000000B0B", "B0B"}[hdrIdx]
+	ownHdr := hdrIdx >= 2
+	rt.Check(store.ID() == 0xB0B, "harness: node id")
 	query := name
 	if extra != "" {
 		if query != "" {
@@ -71,7 +75,7 @@ func VerifC20Invalid() {
 	// which requests are "valid" in the sense that they may legitimately change state or stream data
 	valid := false
 	switch {
-	case path == "/halt" && method == "POST" && extra == "id=1" && nodeHdr != litefs.FormatNodeID(store.ID()):
+	case path == "/halt" && method == "POST" && extra == "id=1" && !ownHdr:
 		valid = true // creates the database if needed and takes the lock
 	case path == "/halt" && method == "DELETE" && extra == "id=1" && name == "name=db":
 		valid = true // releasing a lock that is not held is a no-op anyway
